@@ -37,8 +37,18 @@ UNITS = {
 }
 
 
+def unit_def(name):
+    """`unit` or `unit@feat1,feat2`: the same harness file built with another cargo feature set (C20)."""
+    if '@' in name:
+        base, feats = name.split('@', 1)
+        u = dict(UNITS[base])
+        u['features'] = [f for f in feats.split(',') if f]
+        return u
+    return UNITS[name]
+
+
 def harness_text(unit, gen_text=''):
-    u = UNITS[unit]
+    u = unit_def(unit)
     t = open(os.path.join(common.VERIF, u['file'])).read()
     if u.get('preds'):
         t = t.replace('//@PREDS@', open(os.path.join(common.VERIF, 'contracts/leaf_preds.rs')).read())
@@ -77,7 +87,7 @@ def crate_fingerprint(repo_dir, crate):
 
 def inject(unit, repo_copy, text):
     """Add-only injection: the harness file as a child module + one `#[cfg(kani)] mod` line in its host file."""
-    u = UNITS[unit]
+    u = unit_def(unit)
     croot = os.path.join(repo_copy, u['crate'])
     dst = os.path.join(croot, u.get('modfile', 'src/%s.rs' % u['mod']))
     os.makedirs(os.path.dirname(dst), exist_ok=True)
@@ -140,7 +150,7 @@ def parse_output(out, harnesses, modname):
 
 def run_unit(unit, harnesses, repo_copy, gen_text='', timeout=900, jobs=12, playback=False, mem_gb=None):
     """Run the given harness names of one unit. Returns {harness: result}."""
-    u = UNITS[unit]
+    u = unit_def(unit)
     text = harness_text(unit, gen_text)
     declared = dict(list_harnesses(text))
     results = {}
